@@ -306,9 +306,11 @@ impl StateModel {
         distance: &Distance,
         from_unit: &DistanceUnit,
     ) -> Result<(), StateModelError> {
-        let prev_distance = self.get_distance(state, name, from_unit)?;
-        let next_distance = prev_distance + *distance;
-        self.set_distance(state, name, &next_distance, from_unit)
+        // accumulate in the feature's own unit: only the increment is converted
+        let feature_unit = self.get_feature(name)?.get_distance_unit()?;
+        let prev_distance = self.get_distance(state, name, &feature_unit)?;
+        let next_distance = prev_distance + from_unit.convert(distance, &feature_unit);
+        self.set_distance(state, name, &next_distance, &feature_unit)
     }
 
     /// adds a time value with time unit to this feature vector
@@ -319,9 +321,11 @@ impl StateModel {
         time: &Time,
         from_unit: &TimeUnit,
     ) -> Result<(), StateModelError> {
-        let prev_time = self.get_time(state, name, from_unit)?;
-        let next_time = prev_time + *time;
-        self.set_time(state, name, &next_time, from_unit)
+        // accumulate in the feature's own unit: only the increment is converted
+        let feature_unit = self.get_feature(name)?.get_time_unit()?;
+        let prev_time = self.get_time(state, name, &feature_unit)?;
+        let next_time = prev_time + from_unit.convert(time, &feature_unit);
+        self.set_time(state, name, &next_time, &feature_unit)
     }
 
     /// adds a energy value with energy unit to this feature vector
@@ -332,9 +336,11 @@ impl StateModel {
         energy: &Energy,
         from_unit: &EnergyUnit,
     ) -> Result<(), StateModelError> {
-        let prev_energy = self.get_energy(state, name, from_unit)?;
-        let next_energy = prev_energy + *energy;
-        self.set_energy(state, name, &next_energy, from_unit)
+        // accumulate in the feature's own unit: only the increment is converted
+        let feature_unit = self.get_feature(name)?.get_energy_unit()?;
+        let prev_energy = self.get_energy(state, name, &feature_unit)?;
+        let next_energy = prev_energy + from_unit.convert(energy, &feature_unit);
+        self.set_energy(state, name, &next_energy, &feature_unit)
     }
 
     pub fn set_distance(
